@@ -360,7 +360,10 @@ func ProofAuthenticate(cfg ProofConfig, inner AuthenticateFunc) (AuthenticateFun
 		// Retention spans the whole acceptance window, not one skew: a proof
 		// stamped now+skew verifies until now+2*skew, so forgetting its nonce
 		// after a single skew would let it be replayed for the second half.
-		cache = newNonceCache(2*time.Duration(cfg.SkewSeconds)*time.Second, capacity, cfg.Now)
+		// The extra second covers the window's whole-second granularity — the
+		// age test still passes during the second in which age == skew, while
+		// the cache expires an entry the instant its deadline is reached.
+		cache = newNonceCache(time.Duration(2*cfg.SkewSeconds+1)*time.Second, capacity, cfg.Now)
 	}
 	required := cfg.Mode == ProofModeRequire
 	local := cfg
